@@ -35,8 +35,6 @@ def apply(ctx, W):
     fn_into_verus(ctx, fw, "TypeRegistry::pointer_size", ret="r", tags=U, ensures=["r == self.pointer_size"])
     fn_into_verus(ctx, fw, "TypeRegistry::get", ret="r", tags=U, ensures=[
         "r == (if self.types@.contains_key(*item_path) { Some(&self.types@[*item_path]) } else { None::<&ItemDefinition> })"])
-    fn_into_verus(ctx, fw, "TypeRegistry::padding_type", mode="T", ret="r", tags=U,
-                  requires=["reg_wf(self)"], ensures=["r == pad_type(bytes as nat)"])
 
     # ------------------------------------------------------------------ semantic/type_definition/mod.rs
     fw = W.file("semantic/type_definition/mod.rs")
